@@ -1,5 +1,6 @@
 mod alloc;
 mod backend;
+mod compat;
 mod catalog;
 mod contract;
 mod crash;
@@ -56,6 +57,7 @@ fn main() {
         "fault" => fault::run(&args),
         "contract" => contract::run(&args),
         "catalog" => catalog::run(&args),
+        "compat" => compat::run(&args),
         other => {
             eprintln!("unknown command {other}");
             std::process::exit(2);
